@@ -121,6 +121,7 @@ type Server struct {
 	// TrackManagedFields makes updates/creates/applies maintain
 	// metadata.managedFields via apimachinery's field manager.
 	TrackManagedFields bool
+	minWatchRV         map[string]int64
 	// SubresourcesFirst: discovery lists "<resource>/status" before "<resource>".
 	SubresourcesFirst bool
 	// Before is invoked (without the store lock) before each controller
@@ -148,6 +149,7 @@ type watchSub struct {
 	ns     string
 	ch     chan simEvent
 	closed bool
+	kill   chan struct{} // closed by ExpireWatches: the server drops the connection
 }
 
 // NewServer creates a simulator serving the given resources.
@@ -183,7 +185,9 @@ func (s *Server) Defs() []*ResourceDef { return s.defs }
 
 // sameStore: two definitions that differ only in version serve the same stored objects
 // (a resource with several served versions and no schema differences).
-func sameStore(a, b *ResourceDef) bool { return a == b || (a.Group == b.Group && a.Resource == b.Resource) }
+func sameStore(a, b *ResourceDef) bool {
+	return a == b || (a.Group == b.Group && a.Resource == b.Resource)
+}
 
 // present renders a stored object at the version it is read through.
 func present(d *ResourceDef, obj map[string]any) map[string]any {
@@ -1228,7 +1232,13 @@ func (s *Server) serveWatch(req *http.Request, r *Request) (*http.Response, erro
 	if v := r.Query.Get("resourceVersion"); v != "" {
 		from, _ = strconv.ParseInt(v, 10, 64)
 	}
-	sub := &watchSub{def: d, ns: ns, ch: make(chan simEvent, 4096)}
+	if from > 0 && from < s.minWatchRV[d.Group+"/"+d.Resource] {
+		// the history a reconnecting watcher asks for has been compacted away
+		s.mu.Unlock()
+		e := &apiErr{410, metav1.StatusReasonExpired, fmt.Sprintf("too old resource version: %d (%d)", from, s.minWatchRV[d.Group+"/"+d.Resource]), nil}
+		return jsonResponse(req, 410, e.status(d, "")), nil
+	}
+	sub := &watchSub{def: d, ns: ns, ch: make(chan simEvent, 4096), kill: make(chan struct{})}
 	s.subN++
 	id := s.subN
 	// replay history after 'from'
@@ -1269,6 +1279,8 @@ func (s *Server) serveWatch(req *http.Request, r *Request) (*http.Response, erro
 				return
 			case <-body.closed:
 				return
+			case <-sub.kill:
+				return
 			case ev := <-sub.ch:
 				if !write(ev) {
 					return
@@ -1297,6 +1309,32 @@ type watchBody struct {
 func (w *watchBody) Close() error {
 	w.once.Do(func() { close(w.closed) })
 	return w.PipeReader.Close()
+}
+
+// ExpireWatches drops every open watch connection on a resource and compacts its history: a watcher that
+// reconnects with the resource version it last saw is answered 410 Gone and has to list again. Whatever
+// happens to the objects while nobody watches is only discovered through that list.
+func (s *Server) ExpireWatches(resource string) {
+	s.mu.Lock()
+	defer s.mu.Unlock()
+	for _, sub := range s.subs {
+		if sub.def.Resource == resource && !sub.closed {
+			sub.closed = true
+			close(sub.kill)
+		}
+	}
+}
+
+// CompactHistory makes every resource version handed out so far too old to watch from.
+func (s *Server) CompactHistory(resource string) {
+	s.mu.Lock()
+	defer s.mu.Unlock()
+	if s.minWatchRV == nil {
+		s.minWatchRV = map[string]int64{}
+	}
+	d := s.Def(resource)
+	s.rv++
+	s.minWatchRV[d.Group+"/"+d.Resource] = s.rv
 }
 
 // OpenWatches returns the number of open watch streams per resource.
